@@ -6,6 +6,7 @@
    IV at least one block long, msg of ANY length, and the scratch buffers (encbuf / decbuf
    of the cryptor) in ANY state left behind by earlier calls.
    supported bsz := bsz = 8 \/ bsz = 16 (the two code paths encrypt8/16, decrypt8/16). *)
+From Coq Require Import String Ascii.
 From Coq Require Import NArith List Bool Arith.
 From FV Require Import C16.Model C16.Proofs.
 Import ListNotations.
@@ -94,6 +95,73 @@ Print Assumptions c16_stream_involution.
 Theorem c16_none : forall msg : list N, none_encrypt msg = msg /\ none_decrypt (none_encrypt msg) = msg.
 Proof. intros msg; split; reflexivity. Qed.
 Print Assumptions c16_none.
+
+(* ---------- the factory NewCrypt(name, key, iv) ----------
+   BC (the block ciphers under a key) and KS (the salsa20 keystream) are oracles.
+   factory_kind gives, per name, the cipher and the slice of the supplied key it is keyed with
+   (Some n: key[:n]; None: the whole key, 16/24/32 bytes); any unknown name is AES with key[:32]. *)
+Definition str (s : string) : list N := map N_of_ascii (list_ascii_of_string s).
+Example c16_factory_table :
+  factory_kind (str "aes-128"%string) = FBlock AES (Some 16) /\ factory_kind (str "aes-192"%string) = FBlock AES (Some 24) /\
+  factory_kind (str "sm4"%string) = FBlock SM4 (Some 16) /\ factory_kind (str "twofish"%string) = FBlock TWOFISH None /\
+  factory_kind (str "3des"%string) = FBlock TDES (Some 24) /\ factory_kind (str "xtea"%string) = FBlock XTEA (Some 16) /\
+  factory_kind (str "salsa20"%string) = FStream /\ factory_kind (str "none"%string) = FNone /\
+  factory_kind (str "aes-256"%string) = FBlock AES (Some 32) /\ factory_kind (str ""%string) = FBlock AES (Some 32).
+Proof. repeat split; reflexivity. Qed.
+
+(* "for every accepted name the instance is CFB keyed with key[:n] and iv[:bs]": whenever the
+   factory accepts the key, the instance exists and EVERY sequence of Encrypt/Decrypt calls on
+   it returns textbook CFB under the cipher keyed with k = key[:n] and the first block of iv
+   (cfb_op uses firstn bs iv), independently of earlier calls, without panicking *)
+Theorem c16_factory_is_cfb : forall BC KS name key iv c klen k,
+  factory_kind name = FBlock c klen -> used_key klen key = Some k -> cid_bs c <= length iv ->
+  (k = firstn (length k) key /\ length k <= length key /\
+   match klen with Some n => length k = n | None => k = key end) /\
+  exists i, new_crypt name key iv = Some i /\
+    forall ops, exists i', irun BC KS i ops = Some (map (cfb_op (cid_bs c) (BC c k) iv) ops, i').
+Proof.
+  intros BC KS name key iv c klen k Hk Hu Hiv. split.
+  - exact (used_key_prefix klen key k Hu).
+  - exact (factory_block_is_cfb BC KS name key iv c klen k Hk Hu Hiv).
+Qed.
+Print Assumptions c16_factory_is_cfb.
+
+(* bytes of the key beyond the used prefix and bytes of the iv beyond the first block never
+   influence any output *)
+Theorem c16_factory_prefix_only : forall BC KS name c klen k key1 iv1 key2 iv2 i1 i2 ops,
+  factory_kind name = FBlock c klen ->
+  used_key klen key1 = Some k -> used_key klen key2 = Some k ->
+  cid_bs c <= length iv1 -> cid_bs c <= length iv2 ->
+  firstn (cid_bs c) iv1 = firstn (cid_bs c) iv2 ->
+  new_crypt name key1 iv1 = Some i1 -> new_crypt name key2 iv2 = Some i2 ->
+  option_map fst (irun BC KS i1 ops) = option_map fst (irun BC KS i2 ops).
+Proof. exact factory_prefix_only. Qed.
+Print Assumptions c16_factory_prefix_only.
+
+(* a key the name cannot be keyed with makes the factory panic (no error value is returned);
+   an iv shorter than a block is accepted by the factory and makes the first call panic *)
+Theorem c16_factory_rejects : forall BC KS name key iv c klen,
+  factory_kind name = FBlock c klen ->
+  (used_key klen key = None -> new_crypt name key iv = None) /\
+  (forall k o r, used_key klen key = Some k -> length iv < cid_bs c ->
+     exists i, new_crypt name key iv = Some i /\ irun BC KS i (o :: r) = None).
+Proof. exact factory_rejects. Qed.
+Print Assumptions c16_factory_rejects.
+
+(* salsa20: key[:32], nonce = iv[:8] (zero padded), every call xors with the keystream from
+   position 0; none: the identity *)
+Theorem c16_factory_stream_none : forall BC KS name key iv,
+  (factory_kind name = FStream -> 32 <= length key ->
+     exists nonce, length nonce = 8 /\ firstn (Nat.min 8 (length iv)) nonce = firstn 8 iv /\
+       new_crypt name key iv = Some (IStream (firstn 32 key) nonce) /\
+       forall ops, irun BC KS (IStream (firstn 32 key) nonce) ops =
+                   Some (map (fun o => stream_encrypt (KS (firstn 32 key) nonce) (op_msg o)) ops,
+                         IStream (firstn 32 key) nonce)) /\
+  (factory_kind name = FNone ->
+     new_crypt name key iv = Some INone /\
+     forall ops, irun BC KS INone ops = Some (map op_msg ops, INone)).
+Proof. exact factory_stream_none. Qed.
+Print Assumptions c16_factory_stream_none.
 
 (* modelling step made explicit: the uint64 load / xor / store that encrypt8 and decrypt8
    perform through unsafe.Pointer equals the bytewise block xor used by the model, for
